@@ -204,6 +204,9 @@ class Ctx:
                 if sub.known_match and sub.known_match(e, case, fail):
                     st.excluded_known[e["key"]] = st.excluded_known.get(e["key"], 0) + 1
                     self.known_hits[e["key"]] = e.get("description", "")
+                    if os.environ.get("VERIF_KNOWN_LOG"):     # development aid: what exactly do the matchers absorb?
+                        with open(os.environ["VERIF_KNOWN_LOG"], "a") as fh:
+                            fh.write(json.dumps({"key": e["key"], "sub": sub.name, "fail": fail.to_json()}) + "\n")
                     return None
             return fail
 
